@@ -11,7 +11,7 @@ VERIF = os.path.dirname(os.path.dirname(os.path.abspath(__file__)))
 def label(sid):
     if sid.startswith("a6"):
         return "adversarial r6"
-    m = re.match(r"r(\d)", sid)
+    m = re.match(r"r(\d+)", sid)
     if m:
         return ("adversarial r3" if m.group(1) == "3" else "r" + m.group(1))
     return "r1"
@@ -26,6 +26,8 @@ def caught_text(prop, c):
         return t
     if c.get("caught_by_thorough"):
         return "%s **thorough tier only** (`served-mismatch`); quick tier misses it" % prop
+    if c.get("not_a_violation_under_the_property_model"):
+        return "%s not caught - judged not a violation of the property as stated (see meta.json and section 12.4)" % prop
     return "%s **MISSED** (documented limitation)" % prop
 
 
